@@ -431,3 +431,55 @@ Proof.
 Qed.
 
 End TwoPass.
+
+(* ---------------------------------------------------------------- several commands on one config object
+   HONEST NOTE: these are bookkeeping lemmas, not deep ones.  The model of Command.__init__
+   (`config_vals`) takes the configuration as a VALUE and returns a fresh list, so building a command
+   cannot change what the next one sees: `init_pure` is the identity and the induction below only
+   unfolds it.  That the real Command.__init__ does not write into the shared dict is what the
+   correspondence check establishes (harness/c16.py part seq: params of every step compared with
+   `seq_scenario`, i.e. with THIS function, and the config object compared with a deep copy taken
+   before).  The content of the statement is the contrast with `init_shared` (refuted in
+   Properties/C16.v): it says which function of the ORIGINAL config each command of a sequence gets. *)
+Lemma with_config_same cl : with_config cl (c_config cl) = cl.
+Proof. destruct cl; reflexivity. Qed.
+
+Section Seq.
+Variable conv : N -> string -> option value.
+
+Lemma main_seq_pure cl env dodo steps :
+  main_seq conv init_pure cl env dodo steps = map (step_run conv cl env dodo) steps.
+Proof.
+  induction steps as [|s r IH]; simpl; [reflexivity|].
+  f_equal. unfold init_pure. rewrite with_config_same. destruct (built_by conv cl s); exact IH.
+Qed.
+
+(* the config object after the whole sequence is the one before it *)
+Fixpoint seq_config (eff : list (string * list (name * value)) -> string -> list (string * list (name * value)))
+         (cl : cli) (steps : list seq_step) : list (string * list (name * value)) :=
+  match steps with
+  | [] => c_config cl
+  | s :: r => seq_config eff (match built_by conv cl s with
+                              | Some nm => with_config cl (eff (c_config cl) nm)
+                              | None => cl
+                              end) r
+  end.
+Lemma seq_config_pure cl steps : seq_config init_pure cl steps = c_config cl.
+Proof.
+  induction steps as [|s r IH]; simpl; [reflexivity|].
+  unfold init_pure. rewrite with_config_same. destruct (built_by conv cl s); exact IH.
+Qed.
+
+(* command X (built only, or run), then command Y: Y gets what it gets alone *)
+Lemma commands_independent cl env dodo before y :
+  nth_error (main_seq conv init_pure cl env dodo (before ++ [SRun y])) (length before)
+  = Some (ORun (main_run conv cl env dodo y)).
+Proof.
+  rewrite main_seq_pure, map_app, nth_error_app2; rewrite map_length; [|apply Nat.le_refl].
+  rewrite Nat.sub_diag. reflexivity.
+Qed.
+
+Lemma main_run_twice cl env dodo a :
+  main_seq conv init_pure cl env dodo [SRun a; SRun a] = [ORun (main_run conv cl env dodo a); ORun (main_run conv cl env dodo a)].
+Proof. apply main_seq_pure. Qed.
+End Seq.
